@@ -22,6 +22,7 @@ R(binascii.a2b_hex, stubs.s_unhexlify)
 R(binascii.crc_hqx, stubs.s_crc_hqx)
 R(struct.pack, stubs.s_pack)
 R(struct.unpack, stubs.s_unpack)
+R(struct.unpack_from, stubs.s_unpack_from)
 R(socket.inet_ntoa, stubs.s_inet_ntoa)
 R(textwrap.wrap, stubs.s_wrap)
 R(warnings.warn, stubs.s_warn)
